@@ -212,10 +212,118 @@ theorem wsum_zero (r : F) (rs ds : List F) (h : ∀ d ∈ ds, d = 0) : wsum r rs
     rw [h d (by simp), ih _ _ (fun x hx => h x (by simp [hx]))]; ring
 
 /-- all individual checks accept ⇒ the batch accepts, whatever the verifier's randomness -/
-theorem batch_accepts_of_all (vk : VK F) (cs zs vs : List F) (πs : List (Proof F)) (rs : List F)
-    (h : ∀ d ∈ defects vk cs zs vs πs, d = 0) : batchCheck vk cs zs vs πs rs = true := by
+theorem batchCheck_ok (vk : VK F) (cs zs vs : List F) (πs : List (Proof F)) (rs : List F)
+    (hl : cs.length = zs.length ∧ cs.length = vs.length ∧ cs.length = πs.length) :
+    batchCheck vk cs zs vs πs rs = .ok (decide (batchDefect vk cs zs vs πs rs = 0)) := by
   unfold batchCheck
+  rw [if_neg]
+  omega
+
+/-- shape: slices of different lengths are refused -/
+theorem batchCheck_shape (vk : VK F) (cs zs vs : List F) (πs : List (Proof F)) (rs : List F)
+    (hl : ¬ (cs.length = zs.length ∧ cs.length = vs.length ∧ cs.length = πs.length)) :
+    batchCheck vk cs zs vs πs rs = .error .incorrectInputLength := by
+  unfold batchCheck
+  rw [if_pos]
+  omega
+
+theorem batch_accepts_of_all (vk : VK F) (cs zs vs : List F) (πs : List (Proof F)) (rs : List F)
+    (hl : cs.length = zs.length ∧ cs.length = vs.length ∧ cs.length = πs.length)
+    (h : ∀ d ∈ defects vk cs zs vs πs, d = 0) : batchCheck vk cs zs vs πs rs = .ok true := by
+  rw [batchCheck_ok vk cs zs vs πs rs hl]
+  congr 1
   rw [decide_eq_true_iff, batchDefect_eq, wsum_zero _ _ _ h]
+
+end KZG
+end PCV
+
+namespace PCV
+namespace KZG
+variable {F : Type} [Field F] [DecidableEq F]
+
+/-- exactly one non-zero defect, met by a non-zero randomizer ⇒ the weighted sum is non-zero -/
+theorem wsum_single (r : F) (rs ds : List F) (j : Nat) (hj : j < ds.length)
+    (hz : ∀ i (hi : i < ds.length), i ≠ j → ds[i] = 0)
+    (hne : ds[j] ≠ 0)
+    (hr : (r :: rs).getD j 0 ≠ 0) : wsum r rs ds ≠ 0 := by
+  induction ds generalizing r rs j with
+  | nil => simp at hj
+  | cons d ds ih =>
+    simp only [wsum]
+    cases j with
+    | zero =>
+      have hrest : wsum (rs.headD 0) rs.tail ds = 0 := by
+        apply wsum_zero
+        intro x hx
+        obtain ⟨i, hi, rfl⟩ := List.getElem_of_mem hx
+        have := hz (i + 1) (by simp; omega) (by omega)
+        simpa using this
+      rw [hrest, add_zero]
+      simp only [List.getElem_cons_zero] at hne
+      simp only [List.getD_cons_zero] at hr
+      exact mul_ne_zero hr hne
+    | succ j =>
+      have hd : d = 0 := by
+        have := hz 0 (by simp) (by omega)
+        simpa using this
+      rw [hd, mul_zero, zero_add]
+      apply ih (rs.headD 0) rs.tail j (by simpa using hj)
+      · intro i hi hne'
+        have := hz (i + 1) (by simp; omega) (by omega)
+        simpa using this
+      · simpa using hne
+      · cases rs with
+        | nil => simp at hr
+        | cons a as => simpa using hr
+
+/-- additivity of the commitment map: C08 homomorphism for KZG10 (non-hiding part) -/
+theorem msmSkip_add (b p q : List F) : msmSkip b (padd p q) = msmSkip b p + msmSkip b q := by
+  rw [msmSkip_eq, msmSkip_eq, msmSkip_eq]
+  induction p generalizing b q with
+  | nil => simp [padd]
+  | cons a p ih =>
+    cases q with
+    | nil => simp [padd]
+    | cons c q =>
+      cases b with
+      | nil => simp
+      | cons y ys => simp only [padd, dot_cons, ih ys q]; ring
+
+theorem msmSkip_scale (b p : List F) (c : F) : msmSkip b (pscale c p) = c * msmSkip b p := by
+  rw [msmSkip_eq, msmSkip_eq]
+  induction p generalizing b with
+  | nil => simp [pscale]
+  | cons a p ih =>
+    cases b with
+    | nil => simp
+    | cons y ys =>
+      have := ih ys
+      simp only [pscale, List.map_cons, dot_cons] at this ⊢
+      rw [this]; ring
+
+theorem randPoly_length (d : Nat) (draws r rest : List F) (h : randPoly d draws = some (r, rest)) :
+    r.length = d + 1 ∧ r.getLast? ≠ some 0 ∧ r.take d = draws.take d := by
+  unfold randPoly at h
+  split at h
+  · cases h
+  · rename_i hlen
+    split at h
+    · cases h
+    · rename_i lead rest' hf
+      injection h with h; injection h with h1 h2; subst h1
+      have hlead : lead ≠ 0 := by
+        clear h2 hlen
+        generalize draws.drop d = l at hf
+        induction l with
+        | nil => simp [firstNonzero] at hf
+        | cons x xs ih =>
+          simp only [firstNonzero] at hf
+          split at hf
+          · exact ih hf
+          · injection hf with hf; injection hf with h1 _; subst h1; assumption
+      refine ⟨by simp; omega, by simpa using hlead, ?_⟩
+      rw [List.take_append_of_le_length (by simp; omega)]
+      rw [List.take_take]; simp
 
 end KZG
 end PCV
